@@ -6,9 +6,10 @@ from harness import concdrv
 class Driver(ChanDriver):
     PID = 'C05'
     PROP = 'c05_ok'
-    PROFILES = [('rpc', 150, 2000), ('errors', 40, 400), ('get', 60, 600)]
+    PROFILES = [('rpc', 150, 2000), ('errors', 40, 400), ('get', 60, 600), ('confirm', 40, 400),
+                ('consume', 40, 400)]
     CONC = [('rpc', concdrv.gen_rpc, 'conc_own_reply_ok', 100, 1000)]
-    RULE = ("scenarios from the profiles ['rpc', 'errors', 'get'] of harness/changen.py: sequences of "
+    RULE = ("scenarios from the profiles ['rpc', 'errors', 'get', 'confirm', 'consume'] of harness/changen.py: sequences of "
             'application operations on 1-3 channels, each with a script of '
             'inbound frame batches (replies, deliveries, returns, cancels, '
             'channel/connection closes, silence) delivered one batch per '
